@@ -16,7 +16,7 @@
              d_1..d_64 after;  (sig, number of actions)* for every slot of the registry]
       oc/od 0 Ok(id=od) 1 Ok(()) 2 Err(os) 3 Err(precheck, errno=od) 4 Err(descriptor)
             5 Panic(od: 1 forbidden 2 index 3 assert>=0 4 assert<MAX 5 supports 6 fresh-id 7 stuck)
-      mask  RFlag 1, RFd 2, RArcPending 4, RArcWrite 8, RInstance 16 *)
+      mask  RFlag 1, RFd 2, RArcPending 4, RArcWrite 8, RInstance 16, RAction 32 *)
 From Coq Require Import ZArith NArith List Bool.
 From SH Require Import gen.Extracted_entry entry.Model.
 Import ListNotations. Open Scope Z_scope.
@@ -25,7 +25,7 @@ Definition ep_of (z : Z) : option fn_id := nth_error (checked_eps ++ unchecked_e
 Definition fdk_of (z : Z) : fdkind := if z =? 0 then FdSocket else if z =? 1 then FdPipe else FdBad.
 Definition disp_code (d : disp) : Z := match d with Dfl => 0 | Ign => 1 | Foreign => 2 | Lib => 3 end.
 Definition disp_of_code (z : Z) : disp := if z =? 1 then Ign else if z =? 2 then Foreign else if z =? 3 then Lib else Dfl.
-Definition res_bit (r : res) : Z := match r with RFlag => 1 | RFd => 2 | RArcPending => 4 | RArcWrite => 8 | RInstance => 16 end.
+Definition res_bit (r : res) : Z := match r with RAction => 32 | RFlag => 1 | RFd => 2 | RArcPending => 4 | RArcWrite => 8 | RInstance => 16 end.
 Definition mask (l : list res) : Z := fold_left (fun a r => a + res_bit r) l 0.
 Definition why_code (w : pwhy) : Z :=
   match w with PForbidden => 1 | PIndex => 2 | PAssertNonneg => 3 | PAssertLtMax => 4 | PAssertSupports => 5
